@@ -163,3 +163,7 @@ add("r17_5_copy_count", "C17", "R17.5", "clone_from_slice",
 
 add("r15_4b_ring_not_copied", "C13", "R15.4b", "Large.1",
     [("integer/src/modular/repr.rs", "            *ring = src_ring;\n", "            let _ = (ring, src_ring);\n")])
+
+add("r17_7_stale_sign", "C05", "R17.7", "clone_from",
+    [("integer/src/repr.rs", "        let (cap, _) = self.sign_capacity();\n", "        let (cap, sign) = self.sign_capacity();\n"),
+     ("integer/src/repr.rs", "            if (src_sign == Sign::Positive) ^ (self.capacity.get() > 0) {", "            if src_sign != sign {")])
